@@ -19,6 +19,7 @@
 package c11canon
 
 import (
+	"bufio"
 	"bytes"
 	"crypto/sha256"
 	"encoding/hex"
@@ -26,6 +27,9 @@ import (
 	"fmt"
 	"math"
 	"reflect"
+	"sort"
+	"strconv"
+	"sync"
 	"unicode/utf8"
 
 	"github.com/cloudwego/thriftgo/parser"
@@ -87,6 +91,145 @@ func canon(v reflect.Value) interface{} {
 		return map[string]interface{}{"f64": fmt.Sprintf("%016x", math.Float64bits(v.Float()))}
 	}
 	return fmt.Sprintf("<unsupported kind %s>", v.Kind())
+}
+
+// stream writes the canonical JSON of v (same bytes as JSON(Value(v))) without building the tree.
+type stream struct {
+	w   *bufio.Writer
+	buf []byte
+}
+
+var fieldOrder sync.Map // reflect.Type -> []int (exported fields sorted by name)
+
+func sortedFields(t reflect.Type) []int {
+	if v, ok := fieldOrder.Load(t); ok {
+		return v.([]int)
+	}
+	var idx []int
+	for i := 0; i < t.NumField(); i++ {
+		if t.Field(i).PkgPath == "" {
+			idx = append(idx, i)
+		}
+	}
+	sort.Slice(idx, func(a, b int) bool { return t.Field(idx[a]).Name < t.Field(idx[b]).Name })
+	fieldOrder.Store(t, idx)
+	return idx
+}
+
+func (s *stream) str(x string) {
+	if !utf8.ValidString(x) {
+		s.w.WriteString(`{"hex":"` + hex.EncodeToString([]byte(x)) + `"}`)
+		return
+	}
+	// encoding/json's string escaping without HTML escaping, to stay byte-identical with JSON()
+	var bb bytes.Buffer
+	enc := json.NewEncoder(&bb)
+	enc.SetEscapeHTML(false)
+	_ = enc.Encode(x)
+	s.w.Write(bytes.TrimRight(bb.Bytes(), "\n"))
+}
+
+func plainASCII(x string) bool {
+	for i := 0; i < len(x); i++ {
+		c := x[i]
+		if c < 0x20 || c >= 0x7f || c == '"' || c == '\\' {
+			return false
+		}
+	}
+	return true
+}
+
+func (s *stream) val(v reflect.Value) {
+	switch v.Kind() {
+	case reflect.Invalid:
+		s.w.WriteString("null")
+	case reflect.Ptr, reflect.Interface:
+		if v.IsNil() {
+			s.w.WriteString("null")
+			return
+		}
+		s.val(v.Elem())
+	case reflect.Struct:
+		t := v.Type()
+		s.w.WriteByte('{')
+		for k, i := range sortedFields(t) {
+			if k > 0 {
+				s.w.WriteByte(',')
+			}
+			s.w.WriteByte('"')
+			s.w.WriteString(t.Field(i).Name)
+			s.w.WriteString(`":`)
+			s.val(v.Field(i))
+		}
+		s.w.WriteByte('}')
+	case reflect.Slice, reflect.Array:
+		if v.Kind() == reflect.Slice && v.Type().Elem().Kind() == reflect.Uint8 {
+			s.w.WriteString(`{"hex":"` + hex.EncodeToString(v.Bytes()) + `"}`)
+			return
+		}
+		s.w.WriteByte('[')
+		for i := 0; i < v.Len(); i++ {
+			if i > 0 {
+				s.w.WriteByte(',')
+			}
+			s.val(v.Index(i))
+		}
+		s.w.WriteByte(']')
+	case reflect.Map:
+		keys := make([]string, 0, v.Len())
+		vals := make(map[string]reflect.Value, v.Len())
+		it := v.MapRange()
+		for it.Next() {
+			k := fmt.Sprint(it.Key().Interface())
+			keys = append(keys, k)
+			vals[k] = it.Value()
+		}
+		sort.Strings(keys)
+		s.w.WriteByte('{')
+		for i, k := range keys {
+			if i > 0 {
+				s.w.WriteByte(',')
+			}
+			s.str(k)
+			s.w.WriteByte(':')
+			s.val(vals[k])
+		}
+		s.w.WriteByte('}')
+	case reflect.String:
+		x := v.String()
+		if plainASCII(x) {
+			s.w.WriteByte('"')
+			s.w.WriteString(x)
+			s.w.WriteByte('"')
+		} else {
+			s.str(x)
+		}
+	case reflect.Bool:
+		if v.Bool() {
+			s.w.WriteString("true")
+		} else {
+			s.w.WriteString("false")
+		}
+	case reflect.Int, reflect.Int8, reflect.Int16, reflect.Int32, reflect.Int64:
+		s.buf = strconv.AppendInt(s.buf[:0], v.Int(), 10)
+		s.w.Write(s.buf)
+	case reflect.Uint, reflect.Uint8, reflect.Uint16, reflect.Uint32, reflect.Uint64:
+		s.buf = strconv.AppendUint(s.buf[:0], v.Uint(), 10)
+		s.w.Write(s.buf)
+	case reflect.Float32, reflect.Float64:
+		s.w.WriteString(fmt.Sprintf(`{"f64":"%016x"}`, math.Float64bits(v.Float())))
+	default:
+		s.str(fmt.Sprintf("<unsupported kind %s>", v.Kind()))
+	}
+}
+
+// HashOf is the sha256 (hex) of the canonical JSON of x, computed without building it.
+func HashOf(x interface{}) string {
+	h := sha256.New()
+	s := &stream{w: bufio.NewWriterSize(h, 1<<16)}
+	s.val(reflect.ValueOf(x))
+	s.w.Flush()
+	return hex.EncodeToString(h.Sum(nil))
 }
 
 // Sharing lists, for every include edge of the tree unfolding in depth-first order, the number
@@ -164,21 +307,16 @@ func JSON(v interface{}) []byte {
 
 // Of builds the dump of a request.
 func Of(req *plugin.Request, full bool) *Dump {
-	c := Value(req)
-	sum := sha256.Sum256(JSON(c))
-	d := &Dump{Hash: hex.EncodeToString(sum[:])}
+	d := &Dump{Hash: HashOf(req)}
 	if full {
-		d.Req = c
+		d.Req = Value(req)
 	}
-	if m, ok := c.(map[string]interface{}); ok {
-		asum := sha256.Sum256(JSON(m["AST"]))
-		d.AstHash = hex.EncodeToString(asum[:])
-		head := make(map[string]interface{}, len(m))
-		for k, v := range m {
-			if k != "AST" {
-				head[k] = v
-			}
-		}
+	if req != nil {
+		d.AstHash = HashOf(req.AST)
+		h := *req
+		h.AST = nil
+		head := Value(&h).(map[string]interface{})
+		delete(head, "AST")
 		d.Head = head
 	}
 	if req != nil {
